@@ -1,4 +1,5 @@
 import St4sd.Model.CacheViews
+import St4sd.Model.CacheAmbient
 /-!
 # C08 — Configuration queries always reflect the latest updates
 
@@ -838,6 +839,97 @@ theorem views_depend_on_updates_only (fuel : Nat) (P : S) (d : Desc) (gops : Lis
       grun_state, grun_state, ← filter_lowerOp,
       run_desc_erase_readonly fuel (gops.map (lowerOp P)) (init d) (init d) rfl]
 
+/-! ### ambient settings: a verbosely configured process (Model/CacheAmbient.lean) -/
+
+/-- in coherent states what ANY call answers and what it does to the description depends on the description only -
+never on what happens to be cached -/
+theorem step_depends_on_description (fuel : Nat) (s s' : St) (op : Op) (h : Inv fuel s) (h' : Inv fuel s')
+    (hd : s.desc = s'.desc) :
+    (step fuel s op).2 = (step fuel s' op).2 ∧ (step fuel s op).1.desc = (step fuel s' op).1.desc := by
+  cases hro : op.readOnly with
+  | false => exact ⟨(update_ignores_cache fuel s s' op hro hd).2, (update_ignores_cache fuel s s' op hro hd).1⟩
+  | true =>
+    refine ⟨?_, by rw [readonly_keeps_description fuel s op hro, readonly_keeps_description fuel s' op hro, hd]⟩
+    cases op <;> simp [Op.readOnly] at hro
+    · rw [query_fresh_step fuel s h, query_fresh_step fuel s' h', hd]
+    · rw [queryF_fresh_step fuel s h, queryF_fresh_step fuel s' h', hd]
+    · rfl
+    · simp only [step, hd]
+      split <;> rfl
+    · rfl
+
+/-- what a logger does (read-only calls) leaves the description alone and the cache coherent -/
+theorem looks_keep_description (fuel : Nat) : ∀ (l : List Op) (s : St),
+    (run fuel s (looks l)).1.desc = s.desc := by
+  intro l
+  induction l with
+  | nil => intro s; rfl
+  | cons op r ih =>
+    intro s
+    cases hro : op.readOnly with
+    | false =>
+      have : looks (op :: r) = looks r := by simp [looks, List.filter, hro]
+      rw [this]; exact ih s
+    | true =>
+      have : looks (op :: r) = op :: looks r := by simp [looks, List.filter, hro]
+      rw [this]
+      simp only [run]
+      exact (ih _).trans (readonly_keeps_description fuel s op hro)
+
+/-- one call of a process of ANY verbosity: the answer and the description are those of the quiet call, the cache
+stays coherent -/
+theorem logged_step_as_quiet (V : Verbosity) (fuel : Nat) (s s' : St) (op : Op) (h : Inv fuel s) (h' : Inv fuel s')
+    (hd : s.desc = s'.desc) :
+    (stepLogged V fuel s op).2 = (step fuel s' op).2 ∧ (stepLogged V fuel s op).1.desc = (step fuel s' op).1.desc ∧
+    Inv fuel (stepLogged V fuel s op).1 := by
+  have h0 : Inv fuel (run fuel s (looks (V.before op))).1 := cache_coherent fuel _ s h
+  have hd0 : (run fuel s (looks (V.before op))).1.desc = s'.desc := (looks_keep_description fuel _ s).trans hd
+  have hs := step_depends_on_description fuel _ s' op h0 h' hd0
+  refine ⟨hs.1, ?_, ?_⟩
+  · simp only [stepLogged]
+    exact (looks_keep_description fuel _ _).trans hs.2
+  · simp only [stepLogged]
+    exact cache_coherent fuel _ _ (step_preserves fuel _ op h0)
+
+/-- **logging_is_invisible**: for EVERY verbosity (any read-only calls before and after every call of the interface,
+chosen per call) and every history, a verbose process gets the answers of the quiet one, holds the same description
+afterwards, and its cache is coherent. -/
+theorem logging_is_invisible (V : Verbosity) (fuel : Nat) : ∀ (ops : List Op) (s s' : St), Inv fuel s → Inv fuel s' →
+    s.desc = s'.desc →
+    (runLogged V fuel s ops).2 = (run fuel s' ops).2 ∧ (runLogged V fuel s ops).1.desc = (run fuel s' ops).1.desc ∧
+    Inv fuel (runLogged V fuel s ops).1 := by
+  intro ops
+  induction ops with
+  | nil => intro s s' h _ hd; exact ⟨rfl, hd, h⟩
+  | cons op r ih =>
+    intro s s' h h' hd
+    have h1 := logged_step_as_quiet V fuel s s' op h h' hd
+    have h2 := ih _ _ h1.2.2 (step_preserves fuel s' op h') h1.2.1
+    simp only [runLogged, run]
+    exact ⟨by rw [h1.1, h2.1], h2.2.1, h2.2.2⟩
+
+/-- hence, whatever the verbosity, after any history a query of any variant answers the from-scratch resolution of
+the current description, which is the description the quiet process holds -/
+theorem logged_query_fresh (V : Verbosity) (fuel : Nat) (d : Desc) (ops : List Op) (i : Nat) (n P : S) (f : Flags) :
+    (stepLogged V fuel (runLogged V fuel (init d) ops).1 (.queryF i n P f)).2 =
+      resolveF (run fuel (init d) ops).1.desc P i n f fuel := by
+  have h := logging_is_invisible V fuel ops (init d) (init d) (inv_init fuel d) (inv_init fuel d) rfl
+  have h1 := logged_step_as_quiet V fuel _ _ (.queryF i n P f) h.2.2 (cache_coherent fuel ops _ (inv_init fuel d)) h.2.1
+  rw [h1.1]
+  exact queryF_fresh_step fuel _ (cache_coherent fuel ops _ (inv_init fuel d)) i n P f
+
+/-- a quiet process is the plain history -/
+theorem quiet_is_plain (fuel : Nat) : ∀ (ops : List Op) (s : St), runLogged Verbosity.quiet fuel s ops = run fuel s ops := by
+  intro ops
+  induction ops with
+  | nil => intro s; rfl
+  | cons op r ih =>
+    intro s
+    have hb : looks (Verbosity.quiet.before op) = [] := rfl
+    have ha : looks (Verbosity.quiet.after op) = [] := rfl
+    simp only [runLogged, run, stepLogged, hb, ha]
+    rw [ih]
+
 /-! ### non-vacuity: a history whose two identical queries must (and do) answer differently -/
 
 private def d1 : Desc :=
@@ -931,5 +1023,13 @@ example : (run 50 (init d1) [.addComp 0 "w0".toList tplBody, .addComp 0 "w1".toL
                             .setVar 0 "w0".toList "who".toList (.str "world".toList),
                             .query 0 "w0".toList defaultName, .query 0 "w1".toList defaultName]).2.map args
     = [none, none, none, some (.str "world".toList), some (.str "nobody".toList)] := by rfl
+
+/-- a verbose process that asks for the resolved configuration before and after every update (what a "changes from X
+to Y" report does) and dumps on every query: the answers of the history are those of the quiet process -/
+example : (runLogged ⟨fun o => if o.readOnly then [.read] else [.query 0 ['c'] defaultName, .setGlobalVar ['g'] (.str ['9'])],
+                      fun _ => [.query 0 ['c'] defaultName, .touchComp 0 ['c']]⟩ 50 (init d1)
+      [.query 0 ['c'] defaultName, .setOption 0 ['c'] "#command.arguments".toList (.str "%(g)s!".toList),
+       .query 0 ['c'] defaultName, .setGlobalVar ['g'] (.str ['2']), .query 0 ['c'] defaultName]).2.map argText
+    = [some ['1'], none, some "1!".toList, none, some "2!".toList] := by decide +kernel
 
 end St4sd.C08
